@@ -50,6 +50,10 @@ def _prove_one(task):
         return {'name': target, 'crash': traceback.format_exc()}
 
 
+class WatchdogExpired(BaseException):
+    """not an Exception: code under test catching Exception must not swallow the watchdog"""
+
+
 def _run_bounded(task):
     modname, idx, tier, seed = task
     try:
@@ -61,14 +65,17 @@ def _run_bounded(task):
         import signal
 
         def _expired(signum, frame):
-            raise TimeoutError('bounded stand-in exceeded its wall-clock limit')
+            raise WatchdogExpired('bounded stand-in exceeded its wall-clock limit')
         limit = int(os.environ.get('PYVC_BOUNDED_LIMIT_S', '1500' if tier != 'thorough' else '6000'))
         old = signal.signal(signal.SIGALRM, _expired)
-        signal.alarm(limit)
+        # repeating: code under test that swallows the first expiry (a bare except in a retry loop) is interrupted again
+        signal.setitimer(signal.ITIMER_REAL, limit, 5)
         try:
             out = b['run'](tier, seed)
+        except WatchdogExpired as e:
+            return {'name': b['name'], 'crash': 'WatchdogExpired: %s (limit %d s)' % (e, limit)}
         finally:
-            signal.alarm(0)
+            signal.setitimer(signal.ITIMER_REAL, 0)
             signal.signal(signal.SIGALRM, old)
         out['secs'] = round(time.time() - t0, 2)
         out['name'] = b['name']
